@@ -60,6 +60,23 @@ def corpus():
     return out
 
 
+def root_matrix():
+    """(label, SDL, query): every arrangement of an explicit `schema {}` block (absent / declaring any subset of the three
+    roots incl. query) x conventional or custom root type names x each operation kind.  Small enough to enumerate."""
+    out = []
+    for qn in ('Query', 'RootQ'):
+        for mn in ('Mutation', 'RootM'):
+            for sn in ('Subscription', 'RootS'):
+                types = f'type {qn} {{ a: Int }}\ntype {mn} {{ a: Int }}\ntype {sn} {{ a: Int }}\n'
+                for block in (None, ('query',), ('query', 'mutation'), ('query', 'subscription'), ('query', 'mutation', 'subscription')):
+                    names = dict(query=qn, mutation=mn, subscription=sn)
+                    head = '' if block is None else 'schema { ' + ' '.join(f'{k}: {names[k]}' for k in block) + ' }\n'
+                    for kind in ('query', 'mutation', 'subscription'):
+                        label = f"roots/{qn}-{mn}-{sn}/{'no-block' if block is None else '+'.join(block)}/{kind}"
+                        out.append((label, head + types, f'{kind} Op {{ a }}\n'))
+    return out
+
+
 def main():
     t0 = time.time()
     tier = vc.tier()
@@ -72,7 +89,10 @@ def main():
     cands = K.k_resolve_field_type(R, depth) + K.k_from_json_type(R, depth)
     ncmp = 0
     samples = []
-    for label, sdl, query in corpus():
+    matrix = root_matrix()
+    if tier == 'quick':
+        matrix = [x for i, x in enumerate(matrix) if i % 2 == vc.seed() % 2 or 'Mutation' in x[0]]
+    for label, sdl, query in corpus() + matrix:
         try:
             schema = gql.parse_schema(sdl)
             gql.parse_query(query)
@@ -81,6 +101,14 @@ def main():
             continue
         base = rt.gen(sdl, query, {})
         if base['status'] != 'ok':
+            if label.startswith('roots/'):
+                # both forms must agree on failure as well
+                r = rt.gen(introspect.to_introspection(schema), query, {}, schema_ext='json')
+                ncmp += 1
+                if r['status'] != base['status']:
+                    out.violation('roots:status-differs', f'{label}: the SDL form ends with {base["status"]} but the JSON form with {r["status"]} for `{query.strip()}` on `{sdl.splitlines()[0]}`',
+                                  dict(kind='native', corpus=label, rendering='json', sdl=sdl, query=query))
+                continue
             samples.append(dict(corpus=label, skipped=f"SDL form does not generate: {base['text'][:120]}"))
             continue
         want = items_of(base['text'])
@@ -89,13 +117,15 @@ def main():
             'json-data-wrapped': introspect.to_introspection(schema, wrap_data=True),
             'json-reversed-type-order': introspect.to_introspection(schema, order=list(reversed(schema.order))),
         }
-        if tier == 'thorough':
+        if label.startswith('roots/'):
+            renderings = {'json': renderings['json']}
+        if tier == 'thorough' and not label.startswith('roots/'):
             renderings['json-without-builtin-scalars'] = introspect.to_introspection(schema, include_builtin=False)
         for rname, js in renderings.items():
             r = rt.gen(js, query, {}, schema_ext='json')
             ncmp += 1
             if r['status'] != 'ok':
-                out.violation(f'{label}:{rname}:generation', f'{label}: the {rname} form fails where the SDL form generates: {r["status"]} {r["text"][:200]}',
+                out.violation('roots:status-differs' if label.startswith('roots/') else f'{label}:{rname}:generation', f'{label}: the {rname} form fails where the SDL form generates: {r["status"]} {r["text"][:200]}',
                               dict(kind='native', corpus=label, rendering=rname, sdl=sdl, query=query))
                 continue
             got = items_of(r['text'])
@@ -110,7 +140,8 @@ def main():
                 role = 'oneOf' if any('enum' in d and 'struct' in ' '.join(diff) for d in diff) and '@oneOf' in sdl else 'items'
                 out.violation(f'{role}:{rname}' if role == 'oneOf' else f'{label}:{rname}', f'{label}: generated items differ between SDL and {rname}: ' + ' ;; '.join(diff[:4]),
                               dict(kind='native', corpus=label, rendering=rname, sdl=sdl, query=query, diff=diff[:10]))
-        samples.append(dict(corpus=label, renderings=list(renderings), modules=sorted(want)))
+        if not label.startswith('roots/') or len(samples) < 14:
+            samples.append(dict(corpus=label, renderings=list(renderings), modules=sorted(want)))
     # solver counterexamples: replay like C13 (response field type through both forms)
     import C13
     replayed = 0
@@ -132,7 +163,7 @@ def main():
         states=R.paths, transitions=R.vm.queries, traces_validated_against_impl=ncmp + replayed, samples=R.samples[:4] + samples[:10],
         obligations=R.obligations, discharged=R.discharged,
         bounds=dict(type_expression_max_wrappers=depth, corpus=len(samples)),
-        outside_bounds='whole-schema ingestion is compared natively on the corpus only; `extend type`, explicit `schema {}` vs default names are covered only as far as the corpus uses them',
+        outside_bounds='whole-schema ingestion is compared natively on the corpus only; `extend type`, explicit `schema {}` vs default root names are enumerated natively (root matrix: block arrangement x conventional / custom names x operation kind), not solver-decided',
         engine=R.evidence(), cross_check=cross, exhaustive=False)
     vc.write_evidence(PROP, 'model_checking', coverage,
                       ['lib/introspect.py renders the JSON a spec-compliant server returns for the schema (incl. isOneOf)', 'item order inside a generated module is not semantic',
